@@ -7,37 +7,37 @@ HERE = os.path.dirname(os.path.dirname(os.path.abspath(__file__)))
 CHECKS = {
  "C11": ("inproc", "exploration",
    "online invariant monitor on hooked LRU state + eviction-event replay against a reference recency list",
-   "Every size 1..64 (thorough 1..300) plus large sizes, four access patterns each, >=50*S operations: resident count read under each shard's own lock after every operation and every eviction event compared with a replayed per-shard LRU; a reload that configures the same cache name with another size (bound = the larger size, whichever is in effect); reloads applied step by step (as main.update does) with client requests arriving between the cache step and the server step while a cache is renamed away and later configured again under its old name; then end-to-end through real servers with tiny caches (with and without a store). Holds on the executions produced, not a proof.",
+   "Every size 1..64 (thorough 1..300) plus large sizes, four access patterns each, >=50*S operations: resident count read under each shard's own lock after every operation and every eviction event compared with a replayed per-shard LRU; a reload that configures the same cache name with another size (bound = the larger size, whichever is in effect); reloads applied step by step (as main.update does) with client requests arriving between the cache step and the server step while a cache is renamed away and later configured again under its old name; then end-to-end through real servers with tiny caches (with and without a store), incl. fetches still in flight while their shard is filled by other keys and populations of 3S+20 uncacheable keys (at most S may still answer hitForPass when asked again). Holds on the executions produced, not a proof.",
    "trusts lru.Cache.Len read through the tag-guarded VerifStats hook and the OnEvicted callback of groupcache; sequential access at the dispatcher level (concurrent access is C06/C20)",
    "DESIGN.md 6/C11"),
  "C14": ("inproc", "exploration",
    "reference-model monitor over exhaustive/random lookups + end-to-end origin observation",
-   "Exhaustive over ordered tuples of <=3 location shapes (2 hosts x 3 prefixes), name subsets and 15 queries against an independent routing predicate (any member of the best class accepted), sampled 4-tuples and random larger universes with duplicate names and prefix lengths from 1 to 236 characters; then random configurations applied as reloads to a running server with one origin per location, incl. percent-encoded request URIs (matched as sent): which origin saw the request, 5xx and no upstream contact when nothing matches.",
+   "Exhaustive over ordered tuples of <=3 location shapes (2 hosts x 3 prefixes), name subsets and 15 queries against an independent routing predicate (any member of the best class accepted), sampled 4-tuples and random larger universes with duplicate names and prefix lengths from 1 to 236 characters; then random configurations applied as reloads to a running server with one origin per location, incl. percent-encoded request URIs (matched as sent) and requests carrying X-Forwarded-Host / Forwarded headers that name another configured host: which origin saw the request, 5xx and no upstream contact when nothing matches.",
    "the reference predicate encodes the statement (class order prefix+host < prefix < host < none); ties inside a class are not judged",
    "DESIGN.md 6/C14"),
  "C04": ("inproc", "exploration",
    "offline replay of recorded client/origin histories against the cache-entry reference model under a virtual clock; directed hook-point schedule; interval-sound monitor under a ticking clock",
-   "Generated timed histories (lifetimes 1..2^31-1, origin Age none/0/1/T-1, advances landing before/at/after the expiry second, bursts of 1-8) replayed exactly against the entry model in both directions (fresh => hit of the epoch's fetch with Age = elapsed, expired => exactly one refetch that replaces the entry); a directed schedule puts a clock tick between lookup and answer (with and without a refetch in between); a concurrent mode with a ticking clock and a hostile mode in which every clock reading advances the clock are judged with interval bounds. Histories also run against a cache whose store keeps records past their expiry and against a tiny cache that is evicted between steps; lifetimes also come from s-maxage with a contradicting max-age.",
+   "Generated timed histories (lifetimes 1..2^31-1, origin Age none/0/1/T-1, advances landing before/at/after the expiry second, bursts of 1-8) replayed exactly against the entry model in both directions (fresh => hit of the epoch's fetch with Age = elapsed, expired => exactly one refetch that replaces the entry); a directed schedule puts a clock tick between lookup and answer (with and without a refetch in between); a concurrent mode with a ticking clock and a hostile mode in which every clock reading advances the clock are judged with interval bounds. One history in three interleaves HEAD requests on the same URI (their own key, entry and lifetime). Histories also run against a cache whose store keeps records past their expiry and against a tiny cache that is evicted between steps; lifetimes also come from s-maxage with a contradicting max-age.",
    "pike's only clock seam (cache.nowUnix) is virtualised by a tag-guarded hook; no eviction (cache 100000 >> keys); Age arithmetic when the origin sent its own Age is not judged; a premature refetch of a fresh entry is counted, not judged (that is C01)",
    "DESIGN.md 6/C04"),
  "C01": ("inproc", "exploration",
    "origin-side in-flight overlap monitor + per-epoch exactly-once accounting + porcupine linearizability of recorded histories; hook-point directed schedule; race detector",
-   "Bursts of 2-64 identical cold requests on 1-4 keys over 1-3 epochs with the fetch held at the origin until the hook counter shows every other request parked (so coalescing is really exercised), jitter at four hook points between pike's critical sections; directed schedules: expiry between a waiter's wake-up and its resumption while the next fetcher is in flight (the quantifier's case), expiry between the dispatcher lookup and the entry lookup, and clock jumps of 5 s to 1 h while a fetch is in flight followed by new arrivals; staggered clients with a concurrent clock advancer checked per key with porcupine. Evidence lists parked waiters and distinct interleaving signatures.",
+   "Bursts of 2-64 identical cold requests on 1-4 keys over 1-3 epochs with the fetch held at the origin until the hook counter shows every other request parked (so coalescing is really exercised), jitter at four hook points between pike's critical sections; directed schedules: expiry between a waiter's wake-up and its resumption while the next fetcher is in flight (the quantifier's case), expiry between the dispatcher lookup and the entry lookup, and clock jumps of 5 s to 1 h while a fetch is in flight followed by new arrivals; staggered clients with a concurrent clock advancer checked per key with porcupine; bursts whose one fetch fails after the upstream received it (no answer before the proxy timeout, connection reset, half a body): no client request may reach the upstream twice. Evidence lists parked waiters and distinct interleaving signatures.",
    "virtual clock and hook points (tag-guarded); no eviction or purge during a fetch (cache 100000 >> keys, asserted through the eviction hook); interleavings are those the stressors produce plus the directed one",
    "DESIGN.md 6/C01"),
  "C07": ("inproc", "exploration",
    "reference-model replay of recorded histories + origin in-flight monitor with all contacts held (not-queued oracle) + hooked entry state + porcupine",
-   "Histories for seven configured periods (incl. non-positive and sub-second => 300 s): probes answered uncacheable / without Cache-Control / 5xx / protocol error / cacheable, bursts of 1-24 at mark+0, +1, +P-1, +P and +P+1; probes also fail by a truncated body (abort panic in the handler); during the period the origin holds every contact until all N of the burst are in flight together (independent, not queued) and the hook counter shows nobody parked; at +P+1 exactly one probe is in flight and N-1 are parked; two instances keep their markers in a store behind a tiny cache that is evicted inside the period; staggered porcupine histories with a concurrent clock advancer.",
+   "Histories for seven configured periods (incl. non-positive and sub-second => 300 s): probes answered uncacheable / without Cache-Control / 5xx / protocol error / cacheable, bursts of 1-24 at mark+0, +1, +P-1, +P and +P+1; probes also fail by a truncated body (abort panic in the handler); during the period the origin holds every contact until all N of the burst are in flight together (independent, not queued) and the hook counter shows nobody parked; at +P+1 exactly one probe is in flight and N-1 are parked; two instances keep their markers in a store behind a tiny cache that is evicted inside the period; in a third of the histories the unchanged configuration is applied again inside the period; staggered porcupine histories with a concurrent clock advancer.",
    "virtual clock and hook points; no eviction; a transport-level retry of one request counts as one contact",
    "DESIGN.md 6/C07"),
  "C02": ("inproc", "fault_enumeration",
    "conservation monitor (every call event has a return event) + quiescent invariant on hooked entry state + follow-up probe, over enumerated fetch outcomes x waiter positions; goroutine dump only as witness",
-   "Enumerates 9 fetch outcomes (cacheable, uncacheable, 5xx, upstream protocol error, undecodable body = no response object, hang beyond ProxyTimeout, panic at the proxy hook, truncated upstream body = net/http abort panic, fetcher's client dropping its connection) x 7 waiter situations (parked; one waiter registered but not yet receiving while the completion runs; the same with a purge of the key; arriving after completion; a coalesced client dropping its connection; the fetching entry evicted from its shard; the cache clock jumping two minutes during the fetch followed by a late arrival), then random outcome sequences across epochs on one key. Verdict: all requests returned, the fetch completion ran to its end (hook counters) with the entry lock free, entry status != fetching and no registered waiters at quiescence, each waiter either got the fetched response or made its own upstream contact, follow-up served normally.",
+   "Enumerates 9 fetch outcomes (cacheable, uncacheable, 5xx, upstream protocol error, undecodable body = no response object, hang beyond ProxyTimeout, panic at the proxy hook, truncated upstream body = net/http abort panic, fetcher's client dropping its connection) x 7 waiter situations (parked; one waiter registered but not yet receiving while the completion runs; the same with a purge of the key; arriving after completion; a coalesced client dropping its connection; the fetching entry evicted from its shard; the cache clock jumping two minutes during the fetch followed by a late arrival), every second repeat the fetcher's own request carries Range / If-Range / If-None-Match / If-Modified-Since; then random outcome sequences across epochs on one key. Verdict: all requests returned, the fetch completion ran to its end (hook counters) with the entry lock free, entry status != fetching and no registered waiters at quiescence, each waiter either got the fetched response or made its own upstream contact, follow-up served normally.",
    "liveness restated as bounded progress at quiescence (20 s watchdog only triggers the state inspection); termination without ProxyTimeout against a never-answering upstream is not demanded",
    "DESIGN.md 6/C02"),
  "C18": ("inproc", "exploration",
    "reference-model replay + store inspection + ordering check on event sequence numbers + porcupine linearizability per (cache,key)",
-   "Three caches (without and with a scripted store) behind three servers sharing the Host, purges through the real admin DELETE /cache: sequential purge variants (named, unnamed, absent cache, absent key, repeated; keys with percent escapes, '+' and '%25' in path and query) with the persisted record inspected and the next request on every cache and on a neighbour key judged by the entry model; purge issued while the fetch is held at the origin with parked waiters (must return before the release; nobody stranded); a lookup issued while the purge sits in a slow store delete, and a purge right after a fill whose store write is slow; concurrent histories of requests, purges and clock advances checked per (cache,key) with porcupine.",
+   "Three caches (without and with a scripted store) behind three servers sharing the Host, purges through the real admin DELETE /cache: sequential purge variants (named, unnamed, absent cache, absent key, repeated; keys with percent escapes, '+' and '%25' in path and query) with the persisted record inspected and the next request on every cache and on a neighbour key judged by the entry model; purge issued while the fetch is held at the origin with parked waiters (must return before the release; nobody stranded); a lookup issued while the purge sits in a slow store delete, and a purge right after a fill whose store write is slow (40 ms, and stalls of 2.3 s from which the store recovers); keys longer than 512 bytes; concurrent histories of requests, purges and clock advances checked per (cache,key) with porcupine.",
    "which way a purge concurrent with a fetch is ordered is not judged (linearizability leaves it open); in-memory scripted store stands for the persistent one",
    "DESIGN.md 6/C18"),
  "C03": ("inproc", "exploration",
@@ -47,7 +47,7 @@ CHECKS = {
    "DESIGN.md 6/C03"),
  "C13": ("inproc", "exploration",
    "decision-table monitor (reference table vs HTTPResponse.Fill and vs the running server) + compressor call counters (hook) + byte comparison with the best-compression profile",
-   "The table dimensions of the statement are enumerated completely at the Fill level (14 Accept-Encoding values incl. tokens that merely contain 'gzip' and weighted codings, 7 stored-variant subsets, 4 sizes around two thresholds, default/custom filter, 6 content types, direct and after Cacheable()) with random bodies per cell; end-to-end through servers with default and configured thresholds/filters (two of them with an 8-entry LRU over a store, earlier keys revisited after eviction; text, repetitive and incompressible bodies): compressor call counters around every hit (no per-request recompression) and around bursts of coalesced requests on cold compressible keys (exactly one gzip and one br run), stored variants byte-compared with the best-compression profile's output.",
+   "The table dimensions of the statement are enumerated completely at the Fill level (14 Accept-Encoding values incl. tokens that merely contain 'gzip' and weighted codings, 7 stored-variant subsets, 4 sizes around two thresholds, default/custom filter, 6 content types, direct and after Cacheable()) with random bodies per cell; end-to-end through servers with default and configured thresholds/filters (two of them with an 8-entry LRU over a store, earlier keys revisited after eviction; two reconfigured by a reload of the running server; text, repetitive and incompressible bodies; upstreams that answer gzip or br encoded themselves): compressor call counters around every hit (no per-request recompression) and around bursts of coalesced requests on cold compressible keys (exactly one gzip and one br run), stored variants byte-compared with the best-compression profile's output.",
    "where the raw length and the lengths pike can see straddle the threshold both outcomes are accepted; Accept-Encoding without q-values",
    "DESIGN.md 6/C13"),
  "C05": ("inproc", "exploration",
@@ -62,22 +62,22 @@ CHECKS = {
    "DESIGN.md 6/C15"),
  "C06": ("inproc", "exploration",
    "per-response self-identification oracle (origin echoes method/Host/URI into body and headers) under concurrent traffic with forced shard collisions and constant eviction; race detector + checkptr; dispatcher-level entry identity",
-   "220 near-identical keys (slash/digit/case/escape differences, queries differing in one byte or only by '?', five hosts incl. one with a port and one differing in case, GET vs HEAD, 1.8 kB URIs differing in the last byte, 60 keys forced into one shard via MemHash) on caches of size 8/24/64 and a store-backed one of 16, lifetime 1 s so that entries are also refetched after expiry, 32 concurrent clients: every 2xx answer must echo exactly the requester's method, Host and URI; one million generated keys at the dispatcher level must resolve to pairwise distinct, stable entries.",
+   "220 near-identical keys (slash/digit/case/escape differences, queries differing in one byte or only by '?', five hosts incl. one with a port and one differing in case, GET vs HEAD, 1.8 kB URIs differing in the last byte, 60 keys forced into one shard via MemHash) on caches of size 8/24/64 and a store-backed one of 16, lifetime 1 s so that entries are also refetched after expiry, 32 concurrent clients, a quarter of the requests with X-Forwarded-Host/Forwarded/X-Original-Url headers, every resource with the same strong ETag and every seventh with a body of exactly 1500 bytes: every 2xx answer must echo exactly the requester's method, Host and URI; one million generated keys at the dispatcher level must resolve to pairwise distinct, stable entries.",
    "the origin's echo is ground truth; evictions are observed through the eviction hook (tens of thousands per run)",
    "DESIGN.md 6/C06"),
  "C09": ("inproc", "exploration",
    "round-trip behavioural equivalence monitor + byte-level mutation with panic/hang/allocation monitors in isolated child processes",
-   "Structured entries (all states, 0-200 header lines incl. UTF-8, control and non-UTF-8 bytes, every subset of body variants up to 2 MiB, profile names, filters, extreme clock values and lifetimes) are encoded, decoded and compared through the exported API (Get/Age/Fill for 6 Accept-Encoding values at +0,+1,+T,+T+1 s); on 200 valid records: truncation at every offset must error, bit flips, length-field edits, splices, random strings and crafted filter fields must not panic, hang (20 s) or allocate more than 32x input + 1 MiB (MemStats delta); records with different settings are decoded by 8 goroutines at once and must re-encode to themselves. A dead child is a verdict with the logged case index as witness.",
+   "Structured entries (all states, 0-200 header lines incl. UTF-8, control and non-UTF-8 bytes, every subset of body variants up to 2 MiB, profile names, filters, extreme clock values and lifetimes) are encoded, decoded and compared through the exported API (Get/Age/Fill for 6 Accept-Encoding values at +0,+1,+T,+T+1 s); on 200 valid records: truncation at every offset must error, bit flips, length-field edits, splices, random strings and crafted filter fields must not panic, hang (20 s) or allocate more than 32x input + 1 MiB (MemStats delta); directed valid records (8 MiB bodies compressed 200x and more, a 60 kB header set) must round-trip and decode within the same allocation bound; records with different settings are decoded by 8 goroutines at once and must re-encode to themselves. A dead child is a verdict with the logged case index as witness.",
    "truncation of a bare response record is not judged; thorough tier multiplies batches (8) instead of coverage-guided fuzzing",
    "DESIGN.md 6/C09"),
  "C12": ("inproc", "exploration",
    "round-trip oracle with pike's, standard and independent (gzip CLI, python zlib, zstd CLI) decoders; crash/hang monitor in isolated child processes",
-   "pike's Gzip/Brotli at levels -1..12 plus out-of-range 99/-7 on lengths 0..64, powers of two +-1 up to 1 MiB and random lengths with random/text/runs/zero content; valid streams of all five formats from self-checked reference encoders (multi-member gzip, gzip headers with FNAME/FCOMMENT/FEXTRA/MTIME, brotli windows 2^10..2^24 with flushes, zstd CLI output and zstd streaming-encoder frames declaring windows 2^10..2^25, ratios beyond 200x for lz4 and far more for br/zst) must be restored exactly by pike's decoders; earlier results are kept and re-verified after later operations (no shared buffers); malformed streams (truncation incl. every offset of small streams, bit flips, header edits, random bytes, doubled streams) under a per-case watchdog in a child process.",
+   "pike's Gzip/Brotli at levels -1..12 plus out-of-range 99/-7 on lengths 0..64, powers of two +-1 up to 1 MiB and random lengths with random/text/runs/zero content; valid streams of all five formats from self-checked reference encoders (multi-member gzip, gzip headers with FNAME/FCOMMENT/FEXTRA/MTIME, brotli windows 2^10..2^24 with flushes, zstd CLI output and zstd streaming-encoder frames declaring windows 2^10..2^25, ratios beyond 200x for lz4 and far more for br/zst) must be restored exactly by pike's decoders; earlier results are kept and re-verified after later operations (no shared buffers); malformed streams (truncation incl. every offset of small streams, bit flips, header edits, random bytes, doubled streams) under a per-case watchdog in a child process, a known-good stream of the format being restored right after every second malformed one.",
    "a malformed stream decoding to some bytes without error is accepted; survival + output validity stand in for memory safety of the third-party assembly decoders",
    "DESIGN.md 6/C12"),
  "C10": ("inproc", "fault_enumeration",
    "online monitor over client results + scripted store call log + hooked entry state, under per-call store fault injection",
-   "Every store call draws from {ok, not-found, error, delay, value truncated, random bytes, bit flip in header region / elsewhere, status field overwritten, empty} over histories of bursts, expiry, purge and eviction on a 16-entry cache with a healthy origin. Judged: always 200 with the key's intact body, hits only of still-valid versions, a memory-resident fresh hit never reads the store, an undecodable record yields an ordinary fetching miss, nobody stranded and no entry left fetching (hooked state at quiescence). Garbled values that still decode are classified by the harness decoding them itself and only taint the key.",
+   "Every store call draws from {ok, not-found, error, delay, value truncated, random bytes, bit flip in header region / elsewhere, status field overwritten, empty} over histories of bursts, expiry, purge and eviction on a 16-entry cache with a healthy origin. Judged: always 200 with the key's intact body, hits only of still-valid versions, a memory-resident fresh hit never reads the store, an undecodable record yields an ordinary fetching miss, nobody stranded and no entry left fetching (hooked state at quiescence). Finally the configured store cannot be opened at all (badger directory below a regular file, redis nobody listens on): the cache serves memory-only. Garbled values that still decode are classified by the harness decoding them itself and only taint the key.",
    "well-formed-but-altered records cannot be detected without an integrity field (known finding class undetectable-corruption); a purge whose store delete failed is not judged afterwards",
    "DESIGN.md 6/C10"),
  "C08": ("proc", "fault_enumeration",
@@ -87,7 +87,7 @@ CHECKS = {
    "DESIGN.md 6/C08"),
  "C17": ("proc", "exploration",
    "independent closure predicate and per-field rules vs Validate; structural round-trip comparison through the real file client; probes against freshly started real processes",
-   "Generated configurations with names and free-text values that need YAML quoting: Validate must accept each valid one and reject each of 33 single injected defects (every dangling reference at first and last position, every malformed documented field); Write then Read must return the same configuration; accepted configurations (names with leading/trailing white space included) are applied to fresh real pike processes and every server is probed: no 'cache dispatcher / upstream not found', no 'location not found' where the reference router finds one; two accepted configurations saved to a running instance in quick succession (the second, renaming everything the server refers to, while the first is still being applied) must leave the server resolving everything.",
+   "Generated configurations with names and free-text values that need YAML quoting: Validate must accept each valid one and reject each of 33 single injected defects (every dangling reference at first and last position, every malformed documented field); Write then Read must return the same configuration; accepted configurations (names with leading/trailing white space and store urls that cannot be opened included) are applied to fresh real pike processes and every server is probed: no 'cache dispatcher / upstream not found', no 'location not found' where the reference router finds one; two accepted configurations saved to a running instance in quick succession (the second, renaming everything the server refers to, while the first is still being applied) must leave the server resolving everything.",
    "documented field kinds only; the hostname rule is the validator's (RFC 952); duplicate names and sub-second durations are accepted by pike and not judged",
    "DESIGN.md 6/C17"),
  "C16": ("proc", "exploration",
@@ -97,7 +97,7 @@ CHECKS = {
    "DESIGN.md 6/C16"),
  "C19": ("inproc", "fault_enumeration",
    "ground-truth monitor: the driver's up/down vector vs per-origin request counters, with settling observed through health-check activity at the origins",
-   "14 (thorough 100) upstream groups in one in-process pike whose unchanged configuration is re-applied before odd phases, plus two groups behind the real binary (eight round-robin primaries and primary+backup, all down / all up alternately: more than eight transitions to sick, no alarm URL), covering every primary/backup mix of 1-4 servers, five policies, ping-path and port health checks; origins are really stopped and restarted on the same port in phases (all down, primaries down, first down, random, recovery). After each change the driver waits for two health-check rounds observed after the change on a live server (11.5 s if none), then 12 sequential requests per group must go to healthy primaries, to healthy backups only when no primary is healthy, be balanced within 1 under round-robin, or fail with a 5xx within 2 s when nothing is healthy (a slow answer is retried before it is judged); traffic must resume after recovery. Finally, with everything healthy, single requests fail for reasons that are not the server's (client gives up after 150 ms, location proxy timeout of 1.5 s) and one slow request is held on every primary of groups with backups: the following 12 requests are judged by the same rule.",
+   "14 (thorough 100) upstream groups in one in-process pike whose unchanged configuration is re-applied before odd phases, plus two groups behind the real binary (eight round-robin primaries and primary+backup, all down / all up alternately: more than eight transitions to sick, no alarm URL), covering every primary/backup mix of 1-4 servers, five policies, health checks by path (/ping, /) and by port; in a quarter of the groups 'down' means answering the health check with 503 while still listening; origins are really stopped and restarted on the same port in phases (all down, primaries down, first down, random, recovery). After each change the driver waits for two health-check rounds observed after the change on a live server (11.5 s if none), then 12 sequential requests per group must go to healthy primaries, to healthy backups only when no primary is healthy, be balanced within 1 under round-robin, or fail with a 5xx within 2 s when nothing is healthy (a slow answer is retried before it is judged); traffic must resume after recovery. Finally, with everything healthy, single requests fail for reasons that are not the server's (client gives up after 150 ms, location proxy timeout of 1.5 s) and one slow request is held on every primary of groups with backups: the following 12 requests are judged by the same rule.",
    "the upstream library's 5 s ticker has no clock seam (wall-clock bound); behaviour inside the unsettled window is not judged",
    "DESIGN.md 6/C19"),
  "C20": ("inproc", "exploration",
